@@ -213,6 +213,8 @@ class Driver:
                 if r.random() < 0.15 and sizes:
                     sizes[0] += 1
                 w = self.torch.rand(sizes, dtype=self.torch.float64)
+                if r.random() < 0.3:
+                    w.requires_grad_()        # user-owned leaf tensors that require gradients are legitimate weights
                 if op == 'add_factor':
                     doms = [x.domains.get(nl.name, f.RangeDomain(2)) for nl in lab.type]
                     if r.random() < 0.15 and doms:
@@ -286,7 +288,12 @@ class Driver:
 
     # ---------------- copies
     def check_copy(self, name, x):
-        c = x.copy()
+        try:
+            c = x.copy()
+        except Exception as e:
+            import traceback
+            self.V(f'copy-raises:{type(x).__name__}:{type(e).__name__}', f'{name}.copy() raised {type(e).__name__}: {str(e)[:200]}')
+            return
         if type(c) is not type(x):
             raise AssertionError(f'copy() returned {type(c).__name__}')
         s0 = GI.snap(x)
